@@ -186,7 +186,7 @@ func (w *c18World) execute(methods []c18Method, prefix []int, allVisible bool) *
 	defer os.RemoveAll(dir)
 	drive.CopyDB(w.dir+"/start/db", dir+"/db")
 	fk := fake.NewNode(w.b.Chain)
-	d, err := drive.Open(dir+"/db", fk, nil, false)
+	d, err := drive.Continue(dir+"/db", fk, nil, false) // a clone of the running node
 	if err != nil {
 		panic(err)
 	}
